@@ -9,7 +9,8 @@ CFG = {
     "rule": "histories of a REAL BrutalSender + Pacer on a virtual clock (every time is an argument): rate log-uniform in "
             "[65536, 4e10] B/s plus fixed points (65536, 65537, 1e6 .. 4e10), datagram sizes 1200..1500 raised by path-MTU steps "
             "(also 9000/10240), RTT 0 .. 60 s, a QUIC-like send loop (send while HasPacingBudget, otherwise sleep until TimeUntilSend, "
-            "sometimes a little longer; bursts up to 40), ack/loss batches around the 50-sample threshold and the 0.8 clamp, idle gaps "
+            "sometimes a little longer; bursts up to 40), packets that bypass the pacer while it is limiting (usend: ACK-only 30..80 bytes, "
+            "probes up to one datagram, path-MTU probes above it) followed at once by HasPacingBudget queries / paced sends, ack/loss batches around the 50-sample threshold and the 0.8 clamp, idle gaps "
             "up to the largest gap with rate x gap < 2^63, slot expiry after 3..7 s; 1 history in 5 is 'wild' (ungated sends, time running "
             "backwards, gaps beyond the 63-bit range, rates below the floor) and serves the differential only. After EVERY op the pacer "
             "fields, getBandwidth, maxBurstSize, Budget(now), HasPacingBudget(now), TimeUntilSend, CanSend(inflight), "
@@ -22,8 +23,8 @@ CFG = {
         "state (oracle O3, driver flag fq: ackRate within 1/2 ulp of the rational, bandwidth and window within 1 of the rational floor)",
         "the driver recomputes the two float expressions with Lean `Float` (same IEEE operations, same order) only to reproduce the "
         "integers; ackRate is compared as a bit pattern",
-        "quic-go calls OnPacketSent only for packets released by HasPacingBudget and of at most one datagram (gating hypothesis of "
-        "pacer_conformance), never passes a time earlier than the previous one, and monotime values are positive (monotime.Now() is the "
+        "every packet quic-go reports to OnPacketSent is either released by HasPacingBudget and at most one datagram (paced) or counted "
+        "as unpaced (any size; not part of the bytes the bound is about); quic-go never passes a time earlier than the previous one, and monotime values are positive (monotime.Now() is the "
         "time since one hour before process start); BrutalSender is used from one goroutine (quic-go's connection run loop)",
         "the models Hy.Model.Pacer / Hy.Model.Brutal are tied to pacer.go / brutal.go by the differential stream `brutal` and by constants "
         "regenerated from the compiled packages (incl. the literal pre-RTT window, read off the compiled GetCongestionWindow)",
@@ -38,8 +39,10 @@ CFG = {
 
 MANIFEST = {
     "text": "Proof: Lean theorems over an executable model of pacer.go (with Go's int64/uint64 wrap-around and truncated division) and "
-            "brutal.go (five one-second slots, ackRate as an exact rational). pacer_conformance/brutal_conformance: for every gated send "
-            "sequence from any in-range state, every bandwidth <= B, every cut pre++mid++post with mid inside [t1,t2]: bytes(mid) <= "
+            "brutal.go (five one-second slots, ackRate as an exact rational). pacer_conformance_with_ungated/brutal_conformance: for every "
+            "sequence of paced sends (covered by the budget), UNPACED sends of any size at any time (ACK-only, PTO/MTU probes) and datagram-size "
+            "changes from any in-range state, every bandwidth <= B, every cut pre++mid++post with the paced sends of mid inside [t1,t2]: "
+            "paced bytes(mid) <= "
             "max(B*4ms, 10*M) + B*(t2-t1)/1e9, with B = floor(5*bps/4) for Brutal. wakeup_sufficient/wakeup_immediate/wakeup_uniform: the "
             "time TimeUntilSend announces (ceil division) yields budget >= one datagram at that and every later instant, also when the "
             "bandwidth changes in between. ackrate_range/ackrate_value/ackrate_disabled: 4/5 <= ackRate <= 1 always; after a congestion "
